@@ -27,18 +27,20 @@ def build_system(species, nu, consts, spform="comp", written=None):
     composition=...), "formula": Species.from_formula(name) (the name is a formula of the same
     composition).  written: {'kind', 'i', 'j', 'm'} (0-based reaction i, species j in the given order).
     Returns (EqSystem, names)."""
+    import collections
     from chempy import Species, Equilibrium
     from chempy.equilibria import EqSystem
     subs, names = [], []
     for sp in species:
-        if spform == "formula":
+        if spform in ("formula", "alias"):
             subs.append(Species.from_formula(sp["name"]))
         else:
             comp = {int(k): int(n) for k, n in sp["comp"] if int(k) != 0}
             charge = sum(int(n) for k, n in sp["comp"] if int(k) == 0)
             kw = {"phase_idx": 1} if sp.get("solid") else {}
             subs.append(Species(sp["name"], charge, composition=comp, **kw))
-        names.append(sp["name"])
+        # "alias": the mapping key differs from Substance.name; everything is then addressed by the key
+        names.append("sp%d" % len(names) if spform == "alias" else sp["name"])
     eqs = []
     for i, (row, k) in enumerate(zip(nu, consts)):
         reac = {names[j]: -int(v) for j, v in enumerate(row) if int(v) < 0}
@@ -53,6 +55,8 @@ def build_system(species, nu, consts, spform="comp", written=None):
                 reac[nm] = reac.get(nm, 0) + m
                 prod[nm] = prod.get(nm, 0) + m
         eqs.append(Equilibrium(reac, prod, k, **kw))
+    if spform == "alias":
+        return EqSystem(eqs, collections.OrderedDict(zip(names, subs))), names
     return EqSystem(eqs, subs), names
 
 
